@@ -4,6 +4,8 @@
 // src/common/base64.cc) and Http::Header::Authorization (set/getBasicUser/getBasicPassword). No sampling:
 //
 //   short     every byte string of length 0..2 (65 793)
+//   triples   every byte string of length 3 (16 777 216); quads: every 4-character text over the 64 alphabet characters,
+//             '=' and '!' (18 974 736) through the decoder against the strict reference
 //   boundary  every string of length 3..4 (thorough: ..5) over the 16 byte values
 //             {00 01 3e 3f 40 7f 80 bf c0 fb fc fe ff ':' 'A' '='}
 //   long      for every length 0..300 (thorough: 0..1200): b^n for all 256 byte values b, and two rolling
@@ -468,6 +470,61 @@ static const unsigned char kInvalid[8]   = { 'A', 'b', '9', '+', '/', '=', '!', 
 
 static void run_short(uint64_t i, vr::Ctx& ctx) { eval_bytes(ctx, nth_string(i, kAll, 256, 0, 2)); }
 static void run_boundary(uint64_t i, vr::Ctx& ctx) { eval_bytes(ctx, nth_string(i, kBoundary, 16, 3, gBoundaryLen)); }
+// lean exhaustive families (round 6): the full report is produced by eval_bytes / eval_text on the first disagreement only
+static void run_triples(uint64_t i, vr::Ctx& ctx)
+{
+    std::string x(3, '\0');
+    x[0] = char(i >> 16), x[1] = char(i >> 8 & 255), x[2] = char(i & 255);
+    const std::string want = ref::encode(x);
+    bool okay              = false;
+    {
+        GuardedString g(x);
+        okay = Base64Encoder::EncodeString(*g.s) == want && Base64Encoder::CalculateEncodedSize(3) == 4;
+    }
+    if (okay)
+    {
+        Decoded d = run_decoder(want);
+        okay      = d.ok && d.bytes == x && d.exc.empty() && d.announced == 3;
+    }
+    ctx.count("transitions", 5);
+    if (!okay)
+        eval_bytes(ctx, x);
+    else
+    {
+        ctx.count("evaluations", 1);
+        if ((i & 4095) == 0)
+        {
+            ctx.note("triples from " + std::to_string(i));
+            ctx.poll_reports();
+        }
+    }
+}
+static unsigned char kQuad[66];
+static void run_quads(uint64_t i, vr::Ctx& ctx)
+{
+    std::string t(4, '\0');
+    uint64_t k = i;
+    for (int p = 3; p >= 0; --p, k /= 66)
+        t[p] = char(kQuad[k % 66]);
+    std::string strict;
+    bool valid = ref::decode(t, strict);
+    Decoded a  = run_decoder(t);
+    ctx.count("transitions", 3);
+    bool okay = valid ? (a.ok && a.bytes == strict && a.exc.empty()) : (!a.ok || a.bytes.size() <= 3);
+    if (!okay)
+        eval_text(ctx, t, "quad");
+    else
+    {
+        ctx.count("evaluations", 1);
+        if ((i & 4095) == 0)
+        {
+            ctx.note("quads from " + std::to_string(i));
+            ctx.state(a.hash());
+            ctx.outcome(std::string("quad ") + (valid ? "valid text -> decoded" : a.ok ? "invalid text -> decoded leniently" : "invalid text -> rejected:" + a.exc));
+            ctx.poll_reports();
+        }
+    }
+}
 static void run_long(uint64_t i, vr::Ctx& ctx)
 {
     size_t n = i / 258;
@@ -617,6 +674,10 @@ int main(int argc, char** argv)
 
     add_section("short", count_strings(256, 0, 2), run_short, 512);
     add_section("boundary", count_strings(16, 3, gBoundaryLen), run_boundary, 512);
+    memcpy(kQuad, ref::kTable, 64);
+    kQuad[64] = '=', kQuad[65] = '!';
+    add_section("triples", 1u << 24, run_triples, 1u << 15);           // every byte string of length 3
+    add_section("quads", uint64_t(66) * 66 * 66 * 66, run_quads, 1u << 15); // every 4-character text over the Base64 alphabet, '=' and '!'
     add_section("long", uint64_t(gMaxLen + 1) * 258, run_long, 86);
     add_section("cred", gUsers.size() * gPasswords.size(), run_cred, 17 * 32);
     if (gThorough)
